@@ -305,9 +305,16 @@ func checkC15(p *Prog, r *Report) {
 		if f.Body == nil || f.Pkg != p.Ice {
 			continue
 		}
-		file := p.Pos(f.Body.Pos())
-		file = file[:strings.Index(file, ":")]
-		if file != "tcp_mux.go" && file != "tcp_packet_conn.go" {
+		// the TCP mux, its packet connections and their buffered connections (by owner type, not by file)
+		root := f.Root()
+		owner := ""
+		if root.Decl != nil && root.Decl.Recv != nil {
+			owner = recvTypeName(root.Decl.Recv.List[0].Type)
+		}
+		switch {
+		case owner == "TCPMuxDefault" || owner == "tcpPacketConn" || owner == "bufferedConn":
+		case root.Name == "NewTCPMuxDefault" || root.Name == "newTCPPacketConn" || root.Name == "newBufferedConn":
+		default:
 			continue
 		}
 		walkBody(f, func(n ast.Node) bool {
